@@ -285,10 +285,10 @@ class IpaddrOrHostname(RegularExpressionConversion):
         # We allow underscores in hostnames although this is considered
         # illegal according to RFC1034.
         # Addition: IPv6 addresses are now also accepted
-        expr = (r"(^(\d|[01]?\d\d|2[0-4]\d|25[0-5])\."  # ipaddr
-                r"(\d|[01]?\d\d|2[0-4]\d|25[0-5])\."    # ipaddr cont'd
-                r"(\d|[01]?\d\d|2[0-4]\d|25[0-5])\."    # ipaddr cont'd
-                r"(\d|[01]?\d\d|2[0-4]\d|25[0-5])$)"    # ipaddr cont'd
+        expr = (r"(^([0-9]|[01]?[0-9][0-9]|2[0-4][0-9]|25[0-5])\."  # ipaddr
+                r"([0-9]|[01]?[0-9][0-9]|2[0-4][0-9]|25[0-5])\."    # cont'd
+                r"([0-9]|[01]?[0-9][0-9]|2[0-4][0-9]|25[0-5])\."    # cont'd
+                r"([0-9]|[01]?[0-9][0-9]|2[0-4][0-9]|25[0-5])$)"    # cont'd
                 # or superset of IPv6 addresses (requiring at least one colon);
                 # this must be tried before the hostname alternative, which
                 # would otherwise match a prefix such as "fe80" in "fe80::1"
